@@ -5,7 +5,7 @@ meta.json each, and prints the table of DESIGN.md section 9.5.
 Sources: round 1 is already under /verif/seeded/Cxx-V; rounds 2-5 live in the scratch worktrees
 /tmp/seedN/Cxx/OUT/{A,B} while the build session lasts and are copied to /verif/seeded/rN-Cxx-V.
 Audit logs: lines 'AUDIT <name>: <ID> exit=<rc> ...' written by tools/audit.sh. The final audits
-(/tmp/m8_*.log, /tmp/m9_*.log, /tmp/m9b_*.log, run from snapshots of the late harness) are authoritative; logs of earlier
+(/tmp/m8_*.log, /tmp/m9_*.log, /tmp/m9b_*.log; for rounds 6-7 /tmp/m10_*.log = first audit, /tmp/m11_*.log = re-audit after strengthening; run from snapshots of the harness) are authoritative; logs of earlier
 harness revisions are kept as 'earlier_audits'. If no scratch data is present (fresh restore) the
 script only re-reads what is already in /verif/seeded and prints the table from the meta files."""
 import glob, json, os, re, shutil, sys
@@ -38,9 +38,9 @@ def norm(name):
     return name
 
 
-final_raw, final_tests, final_demo = parse_logs(glob.glob("/tmp/m8_*.log") + glob.glob("/tmp/m9_*.log") + glob.glob("/tmp/m9b_*.log"))
+final_raw, final_tests, final_demo = parse_logs(glob.glob("/tmp/m8_*.log") + glob.glob("/tmp/m9_*.log") + glob.glob("/tmp/m9b_*.log") + glob.glob("/tmp/m10_*.log") + glob.glob("/tmp/m11_*.log"))
 early_raw, early_tests, early_demo = parse_logs(
-    glob.glob("/tmp/matrix_*.log") + glob.glob("/tmp/audit*.log") + glob.glob("/tmp/m2_*.log") + glob.glob("/tmp/m3_*.log") + glob.glob("/tmp/m4_*.log") + glob.glob("/tmp/m5_*.log") + glob.glob("/tmp/m6_*.log") + glob.glob("/tmp/x*.log")
+    glob.glob("/tmp/m10_*.log") + glob.glob("/tmp/matrix_*.log") + glob.glob("/tmp/audit*.log") + glob.glob("/tmp/m2_*.log") + glob.glob("/tmp/m3_*.log") + glob.glob("/tmp/m4_*.log") + glob.glob("/tmp/m5_*.log") + glob.glob("/tmp/m6_*.log") + glob.glob("/tmp/x*.log")
 )
 final = {norm(k): v for k, v in final_raw.items()}
 early = {}
@@ -51,7 +51,7 @@ demo = {norm(k): v for k, v in {**early_demo, **final_demo}.items()}
 props = {json.loads(l)["id"]: json.loads(l) for l in open("/verif/properties.jsonl")}
 
 # copy rounds 2-4 from the scratch worktrees
-for rnd in (2, 3, 4, 5):
+for rnd in (2, 3, 4, 5, 6, 7):
     for d in sorted(glob.glob(f"/tmp/seed{rnd}/C*/OUT/[AB]")):
         pid, var = d.split("/")[3], d.split("/")[-1]
         if not os.path.exists(f"{d}/patch.diff"):
